@@ -54,6 +54,13 @@ Proof.
   apply frame_emit_other; [exact I|exact Hs].
 Qed.
 
+Lemma frame_put_opt put r' st h op :
+  same_at r' (h_st h) st -> same_at r' (h_st (put_opt put h op)) st.
+Proof.
+  intros Hs. unfold put_opt. destruct put; [|exact Hs]. destruct op as [o|]; [|exact Hs].
+  pose proof (frame_put_operation r' st h o Hs) as Hp. destruct (put_operation h o); auto.
+Qed.
+
 Definition res_same {A} (r' : tok) (st : nstate) (x : res A) : Prop :=
   match x with
   | ROk h _ => same_at r' (h_st h) st
@@ -67,23 +74,23 @@ Proof.
   intros Hne Hs. unfold pm_restart. destruct (do_live inst ev_sgn_restart _); cbn; auto.
 Qed.
 
-Lemma frame_pm_prop m req r' st h i4 op :
-  m_round m <> r' -> same_at r' (h_st h) st -> res_same r' st (pm_prop m req h i4 op).
+Lemma frame_pm_prop put m req r' st h i4 op :
+  m_round m <> r' -> same_at r' (h_st h) st -> res_same r' st (pm_prop put m req h i4 op).
 Proof.
   intros Hne Hs. unfold pm_prop. destruct (String.eqb (m_event m) ev_sgn_start).
   - destruct (m_tasks m) as [tasks|]; [|exact Hs].
     destruct req; try exact Hs.
     destruct (save_signatures _ _) as [h' u|h'|] eqn:Es; cbn; auto.
-    + apply frame_save_fsm; [exact Hne|].
+    + apply frame_save_fsm; [exact Hne|]. apply frame_put_opt.
       eapply frame_save_signatures; [|exact Hne|exact Es|].
       * intros s Hin. apply in_map_iff in Hin as (x & <- & _). reflexivity.
       * apply frame_emit_other; [exact I|exact Hs].
     + eapply frame_save_signatures_err; [exact Es|]. apply frame_emit_other; [exact I|exact Hs].
-  - cbn. apply frame_save_fsm; assumption.
+  - cbn. apply frame_save_fsm; [assumption|]. apply frame_put_opt. assumption.
 Qed.
 
-Lemma frame_pm_tail now m req r' st h inst :
-  m_round m <> r' -> same_at r' (h_st h) st -> res_same r' st (pm_tail now m req h inst).
+Lemma frame_pm_tail put now m req r' st h inst :
+  m_round m <> r' -> same_at r' (h_st h) st -> res_same r' st (pm_tail put now m req h inst).
 Proof.
   intros Hne Hs. unfold pm_tail.
   destruct (negb (sender_is_participant _ _ _)); [exact Hs|].
@@ -99,9 +106,9 @@ Proof.
 Qed.
 
 (* every result of processMessage for a message of round r leaves round r' <> r as it was *)
-Theorem process_message_frame now st m r' :
+Theorem process_message_frame put now st m r' :
   m_round m <> r' ->
-  res_same r' st (process_message now {| h_st := st; h_tr := [] |} m).
+  res_same r' st (process_message put now {| h_st := st; h_tr := [] |} m).
 Proof.
   intros Hne. unfold process_message.
   assert (H0 : same_at r' (h_st {| h_st := st; h_tr := [] |}) st) by apply same_at_refl.
@@ -134,7 +141,7 @@ Proof.
        else match (if has_suffix (i_dstate i) "_timeout" && has_prefix (i_dstate i) "state_signing_"
                    then match p_sgn (i_payload i) with Some _ => pm_restart now m h i | None => RPanic end
                    else ROk h i) with
-            | ROk h2 inst2 => match m_req m with MFsm req => pm_tail now m req h2 inst2 | _ => RErr h2 end
+            | ROk h2 inst2 => match m_req m with MFsm req => pm_tail put now m req h2 inst2 | _ => RErr h2 end
             | RErr h2 => RErr h2
             | RPanic => RPanic
             end)).
@@ -156,7 +163,6 @@ Theorem board_message_frame now st m r' :
   m_round m <> r' -> res_same r' st (node_step now st (InMsg m)).
 Proof.
   intros Hne. unfold node_step, process_board_message.
-  pose proof (process_message_frame now st m r' Hne) as H.
-  destruct (process_message now {| h_st := st; h_tr := [] |} m) as [h [o|]|h|]; cbn in *; auto.
-  pose proof (frame_put_operation r' st h o H) as Hp. destruct (put_operation h o); cbn; auto.
+  pose proof (process_message_frame true now st m r' Hne) as H.
+  destruct (process_message true now {| h_st := st; h_tr := [] |} m) as [h o|h|]; cbn in *; auto.
 Qed.
